@@ -72,25 +72,31 @@ theorem lookupForVptr_of_lookup (cfg : Cfg) (p : Pub) (id : Nat) (sl : VSlot) (h
 
 /-- the arguments passed by reference, and the `virtual_ptr`s made on the spot from a reference (whether
     or not its class is the pointer's static class), get the v-table pointers of their registered classes -/
-theorem lookups_ok (s' : PState) (inst : Installed) (c : Compiled) (hc : s'.compiled = some c)
+theorem lookups_ok_pre (s' : PState) (inst : Installed) (c : Compiled) (hc : s'.compiled = some c)
     (ids : List (List Nat))
     (hlook : ∀ (ci : Nat) (l : List Nat) (id : Nat), ids[ci]? = some l → id ∈ l → lookupVptr s'.cfg s'.pub id = .ok (.cur ci))
     (hkeys : ∀ (ci : Nat) (l : List Nat) (id : Nat), ids[ci]? = some l → id ∈ l → classIdx c.graph.heads (s'.cfg.proj id) = some ci)
-    (hnomap : s'.cfg.hash = .checked → ¬ s'.cfg.vptrMap = true) :
+    (hnomap : s'.cfg.hash = .checked → ¬ s'.cfg.vptrMap = true) (pre : List (Nat × VPtr)) :
     ∀ (args : List (Kind × Nat)) (cs : List Nat) (k : Nat),
+      (∀ x ∈ pre, ∀ (id ci : Nat) (l : List Nat), ((Kind.vptr, id), x.1) ∈ List.zipIdx args k → ids[ci]? = some l → id ∈ l →
+        s'.derefVPtr inst x.2 = .ok (inst.vptr.get ci)) →
       Forall₂ (fun (id ci : Nat) => ∃ l, ids[ci]? = some l ∧ id ∈ l) (virtIds args) cs →
-      ∃ vargs, (List.zipIdx args k).mapM (s'.argLookup inst .ref []) = .ok vargs ∧
+      ∃ vargs, (List.zipIdx args k).mapM (s'.argLookup inst .ref pre) = .ok vargs ∧
         Walk.virtPtrs vargs = cs.map inst.vptr.get
-  | [], cs, k, h => by
+  | [], cs, k, _, h => by
     cases h
     exact ⟨[], by simp [List.mapM_nil, pure, Except.pure], rfl⟩
-  | (kd, id) :: rest, cs, k, h => by
+  | (kd, id) :: rest, cs, k, hpre, h => by
+    have hpre' : ∀ x ∈ pre, ∀ (id' ci : Nat) (l : List Nat), ((Kind.vptr, id'), x.1) ∈ List.zipIdx rest (k + 1) → ids[ci]? = some l → id' ∈ l →
+        s'.derefVPtr inst x.2 = .ok (inst.vptr.get ci) := by
+      intro x hx id' ci l hm
+      exact hpre x hx id' ci l (by rw [List.zipIdx_cons]; exact List.mem_cons_of_mem _ hm)
     rw [List.zipIdx_cons, List.mapM_cons]
     cases kd with
     | nonvirt =>
       have h' : Forall₂ (fun (id ci : Nat) => ∃ l, ids[ci]? = some l ∧ id ∈ l) (virtIds rest) cs := by
         simpa [virtIds, Kind.isVirtual] using h
-      obtain ⟨vr, hvr, hptrs⟩ := lookups_ok s' inst c hc ids hlook hkeys hnomap rest cs (k + 1) h'
+      obtain ⟨vr, hvr, hptrs⟩ := lookups_ok_pre s' inst c hc ids hlook hkeys hnomap pre rest cs (k + 1) hpre' h'
       refine ⟨(Kind.nonvirt, 0) :: vr, ?_, ?_⟩
       · simp only [PState.argLookup, hvr, bind, Except.bind, pure, Except.pure]
       · simpa [Walk.virtPtrs, Kind.isVirtual] using hptrs
@@ -100,7 +106,7 @@ theorem lookups_ok (s' : PState) (inst : Installed) (c : Compiled) (hc : s'.comp
       cases h with
       | @cons _ ci _ cs' hhead htail =>
         obtain ⟨l, hl, hid⟩ := hhead
-        obtain ⟨vr, hvr, hptrs⟩ := lookups_ok s' inst c hc ids hlook hkeys hnomap rest cs' (k + 1) htail
+        obtain ⟨vr, hvr, hptrs⟩ := lookups_ok_pre s' inst c hc ids hlook hkeys hnomap pre rest cs' (k + 1) hpre' htail
         refine ⟨(Kind.virt, inst.vptr.get ci) :: vr, ?_, ?_⟩
         · simp only [PState.argLookup, hlook ci l id hl hid, slotVptr, hvr, bind, Except.bind, pure, Except.pure]
         · simp only [Walk.virtPtrs, Kind.isVirtual, List.filter_cons_of_pos, List.map_cons] at hptrs ⊢
@@ -111,7 +117,7 @@ theorem lookups_ok (s' : PState) (inst : Installed) (c : Compiled) (hc : s'.comp
       cases h with
       | @cons _ ci _ cs' hhead htail =>
         obtain ⟨l, hl, hid⟩ := hhead
-        obtain ⟨vr, hvr, hptrs⟩ := lookups_ok s' inst c hc ids hlook hkeys hnomap rest cs' (k + 1) htail
+        obtain ⟨vr, hvr, hptrs⟩ := lookups_ok_pre s' inst c hc ids hlook hkeys hnomap pre rest cs' (k + 1) hpre' htail
         refine ⟨(Kind.vptr, inst.vptr.get ci) :: vr, ?_, ?_⟩
         · have hfv := lookupForVptr_of_lookup _ _ _ _ (hlook ci l id hl hid)
           have hmk : ∃ vp, s'.mkVPtr id = .ok vp ∧ s'.derefVPtr inst vp = .ok (inst.vptr.get ci) := by
@@ -157,10 +163,35 @@ theorem lookups_ok (s' : PState) (inst : Installed) (c : Compiled) (hc : s'.comp
                 refine ⟨_, rfl, ?_⟩
                 simp only [PState.derefVPtr, bne_self_eq_false, Bool.false_eq_true, if_false, slotVptr]
           obtain ⟨vp, hvp, hd⟩ := hmk
-          simp only [PState.argLookup, List.find?_nil, hvp, hd, hvr, bind, Except.bind, pure, Except.pure]
-          rfl
+          cases hf : pre.find? (fun x => x.1 == k) with
+          | none =>
+            simp only [PState.argLookup, hf, hvp, hd, hvr, bind, Except.bind, pure, Except.pure]
+            rfl
+          | some x =>
+            -- a pointer made earlier: it dereferences to the published pointer of its class
+            have hxm : x ∈ pre := List.mem_of_find?_eq_some hf
+            have hxk : x.1 = k := by simpa using List.find?_some hf
+            have hdx := hpre x hxm id ci l (by rw [hxk, List.zipIdx_cons]; exact List.mem_cons_self) hl hid
+            simp only [PState.argLookup, hf, hdx, hvr, bind, Except.bind, pure, Except.pure]
         · simp only [Walk.virtPtrs, Kind.isVirtual, List.filter_cons_of_pos, List.map_cons] at hptrs ⊢
           rw [hptrs]
+
+theorem lookups_ok (s' : PState) (inst : Installed) (c : Compiled) (hc : s'.compiled = some c)
+    (ids : List (List Nat))
+    (hlook : ∀ (ci : Nat) (l : List Nat) (id : Nat), ids[ci]? = some l → id ∈ l → lookupVptr s'.cfg s'.pub id = .ok (.cur ci))
+    (hkeys : ∀ (ci : Nat) (l : List Nat) (id : Nat), ids[ci]? = some l → id ∈ l → classIdx c.graph.heads (s'.cfg.proj id) = some ci)
+    (hnomap : s'.cfg.hash = .checked → ¬ s'.cfg.vptrMap = true)
+    (args : List (Kind × Nat)) (cs : List Nat) (k : Nat)
+    (h : Forall₂ (fun (id ci : Nat) => ∃ l, ids[ci]? = some l ∧ id ∈ l) (virtIds args) cs) :
+    ∃ vargs, (List.zipIdx args k).mapM (s'.argLookup inst .ref []) = .ok vargs ∧
+      Walk.virtPtrs vargs = cs.map inst.vptr.get :=
+  lookups_ok_pre s' inst c hc ids hlook hkeys hnomap [] args cs k (fun x hx => by cases hx) h
+
+/-- a `virtual_ptr` made earlier that may be passed for an argument of dynamic type `id`: it holds the
+    address of the class's static v-table pointer cell (what an indirect policy makes, at any time), or
+    the v-table pointer of the class as the latest update published it (a pointer made since) -/
+def StoredFor (s' : PState) (c : Compiled) (vp : VPtr) (id : Nat) : Prop :=
+  vp.ref = .cell (s'.cfg.proj id) ∨ ∃ ci, id ∈ c.graph.ids ci ∧ vp.ref = .direct (.cur ci) s'.epoch
 
 /-- **C01 + C02 at the outermost level of the model.** After an `update` that succeeded, on a registry
     without inheritance cycles whose ids are machine words: a call of a registered method, with
@@ -171,7 +202,7 @@ theorem lookups_ok (s' : PState) (inst : Installed) (c : Compiled) (hc : s'.comp
     cases apart, whose arity is the number of virtual parameters and whose type ids are the dynamic
     types of the virtual arguments, in order — for every policy flavour (vector, fast hash, checked
     hash, map), every arity and every placement of non-virtual parameters. -/
-theorem C01_C02_call_after_update (s s' : PState) (mults rest : List UInt64)
+theorem call_after_update_stored (s s' : PState) (mults rest : List UInt64)
     (hup : s.update mults = (s', .ok, rest))
     (hwf : WF s.cfg.proj s.registry.classes s.registry.methods)
     (hword : ∀ r ∈ s.registry.classes, r.id < 2 ^ 64 - 1)
@@ -180,10 +211,12 @@ theorem C01_C02_call_after_update (s s' : PState) (mults rest : List UInt64)
     (args : List (Kind × Nat)) (cs : List Nat)
     (hnomap : s.cfg.hash = .checked → ¬ s.cfg.vptrMap = true)
     (hreg : Forall₂ (fun (id ci : Nat) => id ∈ c.graph.ids ci) (virtIds args) cs)
-    (hacc : Forall₂ (fun cl v => cl ∈ c.graph.cov.get v) cs m.vp) (hpos : 0 < m.vp.length) :
+    (hacc : Forall₂ (fun cl v => cl ∈ c.graph.cov.get v) cs m.vp) (hpos : 0 < m.vp.length)
+    (pre : List (Nat × VPtr))
+    (hpre : ∀ x ∈ pre, ∀ id, ((Kind.vptr, id), x.1) ∈ List.zipIdx args → StoredFor s' c x.2 id) :
     ∃ mr o, s.registry.methods[mi]? = some mr ∧
       Selects s.cfg.proj s.registry mr.defs ((virtIds args).map s.cfg.proj) o ∧
-      s'.callWith key args .ref [] = expected m.vp.length args o := by
+      s'.callWith key args .ref pre = expected m.vp.length args o := by
   obtain ⟨c', inst, att, hcomp, hinst, hpub, hc', hi', hcfg⟩ := update_ok s s' mults rest hup
   rw [hc] at hc'; cases hc'
   obtain ⟨hg, _, _, _, _⟩ := VtblContent.compile_fields s.cfg.proj s.registry c hcomp
@@ -252,7 +285,18 @@ theorem C01_C02_call_after_update (s s' : PState) (mults rest : List UInt64)
     have hk1 := (hidkey id ci hid).1
     rw [hcfg, hheads]
     exact classIdx_of_get (heads_keys s.cfg.proj s.registry.classes).1 hk1
-  obtain ⟨vargs, hvargs, hptrs⟩ := lookups_ok s' inst c hc ids hlook hkeys (by rw [hcfg]; exact hnomap) args cs 0 hreg'
+  have hpre' : ∀ x ∈ pre, ∀ (id ci : Nat) (l : List Nat), ((Kind.vptr, id), x.1) ∈ List.zipIdx args 0 → ids[ci]? = some l → id ∈ l →
+      s'.derefVPtr inst x.2 = .ok (inst.vptr.get ci) := by
+    intro x hx id ci l hm hl hid
+    rcases hpre x hx id hm with hcell | ⟨ci', hci', hdir⟩
+    · -- the address of the class's static cell: read now, it holds what this update published
+      simp only [PState.derefVPtr, hcell, PState.cellSlot, hc, hkeys ci l id hl hid, slotVptr]
+    · -- a pointer value copied since this update
+      have hci : id ∈ c.graph.ids ci := by rw [← hidsget' ci l hl]; exact hid
+      have : ci' = ci := Bridge.key_inj ctx ci' ci _ (hidkey id ci' hci').1 (hidkey id ci hci).1
+      subst this
+      simp only [PState.derefVPtr, hdir, bne_self_eq_false, Bool.false_eq_true, if_false, slotVptr]
+  obtain ⟨vargs, hvargs, hptrs⟩ := lookups_ok_pre s' inst c hc ids hlook hkeys (by rw [hcfg]; exact hnomap) pre args cs 0 hpre' hreg'
   -- the walk
   have hlen : (Walk.virtPtrs vargs).length = m.vp.length := by
     rw [hptrs, List.length_map]; exact forall₂_length hacc
@@ -276,6 +320,23 @@ theorem C01_C02_call_after_update (s s' : PState) (mults rest : List UInt64)
     obtain ⟨df, hdf⟩ := hdef i rfl
     obtain ⟨sp, hsp, hspid, _⟩ := (Bridge.spec_get ctx m mr hmm i).2 df hdf
     simp only [hsp, Bridge.outcomeOf, hdf, expected, hspid]
+
+/-- the statement for calls whose `virtual_ptr` arguments are all made on the spot -/
+theorem C01_C02_call_after_update (s s' : PState) (mults rest : List UInt64)
+    (hup : s.update mults = (s', .ok, rest))
+    (hwf : WF s.cfg.proj s.registry.classes s.registry.methods)
+    (hword : ∀ r ∈ s.registry.classes, r.id < 2 ^ 64 - 1)
+    (c : Compiled) (hc : s'.compiled = some c)
+    (key mi : Nat) (m : MethodC) (hfind : (List.zipIdx c.methods).find? (fun e => e.1.key == key) = some (m, mi))
+    (args : List (Kind × Nat)) (cs : List Nat)
+    (hnomap : s.cfg.hash = .checked → ¬ s.cfg.vptrMap = true)
+    (hreg : Forall₂ (fun (id ci : Nat) => id ∈ c.graph.ids ci) (virtIds args) cs)
+    (hacc : Forall₂ (fun cl v => cl ∈ c.graph.cov.get v) cs m.vp) (hpos : 0 < m.vp.length) :
+    ∃ mr o, s.registry.methods[mi]? = some mr ∧
+      Selects s.cfg.proj s.registry mr.defs ((virtIds args).map s.cfg.proj) o ∧
+      s'.callWith key args .ref [] = expected m.vp.length args o :=
+  call_after_update_stored s s' mults rest hup hwf hword c hc key mi m hfind args cs hnomap hreg hacc hpos []
+    (fun x hx => by cases hx)
 
 /-- the same statement read for C02: when the specification finds no definition, or several
     incomparable ones, nothing runs and the handler gets status, arity and the virtual arguments' ids -/
